@@ -1,6 +1,891 @@
-//! C12 — stub (to be implemented).
+//! C12 — decoded content does not depend on how the underlying stream chunks its reads.
+//!
+//! Monitor: for every corpus item of every kind (plus CRLF / no-final-EOL / UTF-8 / malformed derivatives built
+//! here) and every reading API ("variant") of that kind, the canonical transcript driver of the `corpus` crate is
+//! run once on the plain slice (the oracle) and then once per *delivery schedule* on the same bytes served by
+//! `vcore::adv::ChunkedRead`: short reads (1 byte, fixed k, random 1..=k, cut at / around every structural
+//! boundary), finite `ErrorKind::Interrupted` injections (at most one per source offset), `std::io::BufReader`s of
+//! capacity 1..65536 and the adversary used directly as the `BufRead` (tiny `fill_buf` windows). The transcripts
+//! (headers, records, byte digests, virtual positions, index values, `ERR:<kind>` / `END`) must be identical.
+//!
+//! A difference is diagnosed by re-running the schedule without the interrupts and, for `BufReader` schedules,
+//! with a source that never delivers short: the signature names the kind, the reading API, the cause
+//! (`interrupted` / `capacity` / `short-read`) and the class of the first differing element.
+
+use std::{
+    collections::BTreeSet,
+    io::{self, BufRead, Read},
+    sync::Arc,
+};
+
+use corpus::{Item, Kind, Side, Variant};
+use serde_json::json;
+use vcore::{
+    CaseOut, Ctx, Report, Rng,
+    adv::{ChunkedRead, Sizes},
+    guard,
+    rng::fnv1a,
+    run_cases,
+};
+
+// ------------------------------------------------------------------------------------------------
+// inputs
+
+#[derive(Clone, Debug)]
+struct Input {
+    kind: Kind,
+    name: String,
+    bytes: Arc<Vec<u8>>,
+    side: Side,
+    /// structural boundaries (sorted, with 0 and len)
+    bounds: Vec<usize>,
+    /// "valid" (corpus item), "derived" (CRLF / no final EOL / UTF-8 / known-problem item), "malformed"
+    class: &'static str,
+}
+
+fn to_crlf(b: &[u8]) -> Vec<u8> {
+    let mut v = Vec::with_capacity(b.len() + b.len() / 20);
+    for (i, &c) in b.iter().enumerate() {
+        if c == b'\n' && (i == 0 || b[i - 1] != b'\r') {
+            v.push(b'\r');
+        }
+        v.push(c);
+    }
+    v
+}
+
+fn is_text(kind: Kind) -> bool {
+    matches!(kind, Kind::Sam | Kind::Vcf | Kind::Fasta | Kind::Fastq | Kind::Gff | Kind::Gtf | Kind::Bed | Kind::Fai | Kind::FastqFai)
+}
+
+fn mk_input(kind: Kind, name: String, bytes: Vec<u8>, side: &Side, class: &'static str) -> Input {
+    let item = Item { kind, name, bytes, side: side.clone() };
+    let bounds = corpus::boundaries(&item);
+    Input { kind, name: item.name, bytes: Arc::new(item.bytes), side: item.side, bounds, class }
+}
+
+/// Start of the first chunk record of a BAI file (a position whose corruption cannot change a count).
+fn bai_first_chunk(b: &[u8]) -> Option<usize> {
+    let u32le = |p: usize| b.get(p..p + 4).map(|s| u32::from_le_bytes([s[0], s[1], s[2], s[3]]));
+    if b.get(..4)? != b"BAI\x01" {
+        return None;
+    }
+    let n_ref = u32le(4)?;
+    let mut q = 8usize;
+    for _ in 0..n_ref {
+        let n_bin = u32le(q)?;
+        q += 4;
+        for _ in 0..n_bin {
+            let n_chunk = u32le(q + 4)?;
+            if n_chunk > 0 {
+                return Some(q + 8);
+            }
+            q += 8;
+        }
+        let n_intv = u32le(q)?;
+        q += 4 + 8 * n_intv as usize;
+    }
+    None
+}
+
+/// Positions (offset, xor mask) whose corruption cannot turn a length / count field into a huge value: what the
+/// reader does with such a file on the plain slice is the oracle, but a multi-gigabyte allocation request or a
+/// panic of the plain-slice run is C15's business, not C12's.
+fn safe_corruptions(inp: &Input, rng: &mut Rng) -> Vec<(usize, u8, &'static str)> {
+    let b = &inp.bytes[..];
+    let len = b.len();
+    let mut v: Vec<(usize, u8, &'static str)> = Vec::new();
+    if len < 8 {
+        return v;
+    }
+    let mid_bound = |v: &[usize]| v.get(v.len() / 2).copied().unwrap_or(0);
+    match inp.kind {
+        k if k.is_bgzf_wrapped() => {
+            // BGZF frames are bounded by 64 KiB whatever the bytes say
+            v.push((1, 0xff, "bgzf-magic"));
+            v.push((mid_bound(&inp.bounds) + 16, 0x01, "bsize"));
+            v.push((rng.urange(18, len - 1), 0x10, "random-byte"));
+            v.push((len.saturating_sub(28 + 6).max(18), 0x01, "last-crc"));
+        }
+        Kind::BamRaw | Kind::BcfRaw => {
+            let skip = if inp.kind == Kind::BamRaw { 4 } else { 8 };
+            v.push((0, 0x01, "magic"));
+            v.push((14.min(len - 1), 0x01, "header-text"));
+            // inside record bodies (after the length prefix): parsed from a buffer of the stated size
+            let recs: Vec<usize> = inp.bounds.iter().copied().filter(|&o| o > 12).collect();
+            for k in [recs.len() / 2, recs.len().saturating_sub(2)] {
+                if k + 1 < recs.len() {
+                    let (s, e) = (recs[k], recs[k + 1]);
+                    if e > s + skip + 1 {
+                        v.push((rng.urange(s + skip, e - 1), 0x01, "record-body"));
+                    }
+                }
+            }
+        }
+        Kind::Cram => {
+            v.push((1, 0x01, "magic"));
+            v.push((4, 0x01, "major-version"));
+            let l = corpus::cram_layout(b);
+            // block bytes of a data container (not its header: lengths live there)
+            for k in [1usize, l.containers.len().saturating_sub(2)] {
+                if k >= 1 && k + 1 < l.containers.len() {
+                    let (s, e) = (l.bodies[k], l.containers[k + 1]);
+                    if e > s + 40 {
+                        v.push((rng.urange(s + 20, e - 5), 0x01, "block-bytes"));
+                    }
+                }
+            }
+        }
+        Kind::Bai => {
+            v.push((1, 0x01, "magic"));
+            v.push((len - 1, 0x01, "last-byte"));
+            if let Some(p) = bai_first_chunk(b) {
+                v.push((p + 2, 0x01, "chunk-offset"));
+            }
+        }
+        Kind::Gzi => {
+            v.push((0, 0x01, "count-low-byte"));
+            if len > 12 {
+                v.push((len - 3, 0x01, "entry"));
+            }
+        }
+        Kind::Crai => {
+            v.push((0, 0x01, "gzip-magic"));
+            v.push((len / 2, 0x01, "deflate-bytes"));
+            v.push((len - 6, 0x01, "gzip-crc"));
+        }
+        _ => {
+            // text kinds: every byte is data
+            v.push((0, 0x01, "first-byte"));
+            let p = rng.urange(1, len - 1);
+            v.push((p, 0x80, "high-bit"));
+            // a TAB / LF / digit in the second half
+            let from = len / 2;
+            if let Some(i) = b[from..].iter().position(|&c| c == b'\t') {
+                v.push((from + i, 0x29, "tab-to-space"));
+            }
+            if let Some(i) = b[from..].iter().position(|&c| c == b'\n') {
+                v.push((from + i, 0x2a, "lf-to-space"));
+            }
+            if let Some(i) = b[from..].iter().position(|c| c.is_ascii_digit()) {
+                v.push((from + i, 0x48, "digit-to-letter"));
+            }
+        }
+    }
+    v.retain(|e| e.0 < len);
+    v
+}
+
+fn build_inputs(seed: u64, scale: u8, per_kind_malformed: usize) -> Vec<Input> {
+    let items = corpus::items(seed, scale);
+    let mut out: Vec<Input> = Vec::new();
+    for it in &items {
+        out.push(mk_input(it.kind, it.name.clone(), it.bytes.clone(), &it.side, "valid"));
+    }
+    // valid files noodles has trouble with (the oracle is still the same reader on the plain slice)
+    for it in corpus::known_problem_items() {
+        out.push(mk_input(it.kind, it.name.clone(), it.bytes.clone(), &it.side, "derived"));
+    }
+
+    // derived text inputs: CRLF line ends, no final line terminator, multi-byte UTF-8 characters
+    let mut derived = Vec::new();
+    for kind in Kind::ALL.iter().copied().filter(|&k| is_text(k)) {
+        let mut cands: Vec<&Input> = out.iter().filter(|i| i.kind == kind && i.class == "valid" && i.bytes.len() > 40).collect();
+        cands.sort_by_key(|i| i.bytes.len());
+        let take = if scale >= 2 { 2 } else { 1 };
+        for base in cands.into_iter().take(take) {
+            if !base.bytes.windows(2).any(|w| w == b"\r\n") {
+                derived.push(mk_input(kind, format!("{}+crlf", base.name), to_crlf(&base.bytes), &base.side, "derived"));
+            }
+            if base.bytes.ends_with(b"\n") {
+                let mut b = base.bytes.to_vec();
+                b.pop();
+                if b.ends_with(b"\r") {
+                    b.pop();
+                }
+                derived.push(mk_input(kind, format!("{}+no-final-eol", base.name), b, &base.side, "derived"));
+            }
+            // blank line at the end / in the middle (readers skip or reject it; either way identically)
+            let mut b = base.bytes.to_vec();
+            b.extend_from_slice(b"\n");
+            derived.push(mk_input(kind, format!("{}+trailing-blank-line", base.name), b, &base.side, "derived"));
+        }
+    }
+    // UTF-8: VCF is a UTF-8 format (VCF 4.3 §1: "encoded in UTF-8"); multi-byte characters in a header description,
+    // an INFO string and a sample value. SAM / GFF3 / GTF / BED comment and free-text columns likewise.
+    let vcf_utf8 = "##fileformat=VCFv4.3\n##contig=<ID=sq0,length=1000>\n##INFO=<ID=NOTE,Number=1,Type=String,Description=\"Gr\u{00fc}\u{00df}e \u{2014} \u{65e5}\u{672c}\u{8a9e} \u{1f9ec}\">\n##FORMAT=<ID=TX,Number=1,Type=String,Description=\"text\">\n#CHROM\tPOS\tID\tREF\tALT\tQUAL\tFILTER\tINFO\tFORMAT\ts\u{00e9}mple\nsq0\t5\trs\u{00e9}\tA\tC\t.\t.\tNOTE=caf\u{00e9}\u{1f9ec}\tTX\tna\u{00ef}ve\nsq0\t9\t.\tG\tT\t10\tPASS\tNOTE=\u{65e5}\u{672c}\tTX\t\u{00fc}\n";
+    derived.push(mk_input(Kind::Vcf, "c12/vcf-utf8-multibyte".into(), vcf_utf8.as_bytes().to_vec(), &Side::default(), "derived"));
+    derived.push(mk_input(Kind::Vcf, "c12/vcf-utf8-multibyte+crlf".into(), to_crlf(vcf_utf8.as_bytes()), &Side::default(), "derived"));
+    let sam_utf8 = "@HD\tVN:1.6\n@SQ\tSN:sq0\tLN:100\n@CO\tGr\u{00fc}\u{00df}e \u{65e5}\u{672c}\u{8a9e}\nr\u{00e9}ad\t0\tsq0\t1\t60\t4M\t*\t0\t0\tACGT\tIIII\tXZ:Z:caf\u{00e9} \u{1f9ec}\n";
+    derived.push(mk_input(Kind::Sam, "c12/sam-utf8-multibyte".into(), sam_utf8.as_bytes().to_vec(), &Side::default(), "derived"));
+    let gff_utf8 = "##gff-version 3\n#comment \u{65e5}\u{672c}\u{8a9e}\nsq0\tsrc\u{00e9}\tgene\t1\t100\t.\t+\t.\tID=g\u{00e9}ne0;Name=caf\u{00e9} \u{1f9ec}\n";
+    derived.push(mk_input(Kind::Gff, "c12/gff-utf8-multibyte".into(), gff_utf8.as_bytes().to_vec(), &Side::default(), "derived"));
+    let gtf_utf8 = "sq0\tsrc\u{00e9}\tgene\t1\t100\t.\t+\t.\tgene_id \"g\u{00e9}ne0\"; note \"caf\u{00e9} \u{1f9ec}\";\n";
+    derived.push(mk_input(Kind::Gtf, "c12/gtf-utf8-multibyte".into(), gtf_utf8.as_bytes().to_vec(), &Side::default(), "derived"));
+    let bed_utf8 = "#\u{65e5}\u{672c}\u{8a9e}\nsq0\t0\t10\tn\u{00e9}me\t\u{1f9ec}\nsq0\t5\t20\tb\tx\n";
+    derived.push(mk_input(Kind::Bed, "c12/bed-utf8-multibyte".into(), bed_utf8.as_bytes().to_vec(), &Side { bed_n: 3, ..Side::default() }, "derived"));
+    let fasta_utf8 = ">sq0 d\u{00e9}scription \u{1f9ec}\nACGT\nAC\n>sq1\nGG\n";
+    derived.push(mk_input(Kind::Fasta, "c12/fasta-utf8-description".into(), fasta_utf8.as_bytes().to_vec(), &Side::default(), "derived"));
+    let fastq_utf8 = "@r0 d\u{00e9}sc \u{1f9ec}\nACGT\n+\nIIII\n@r1\tx\nAC\n+r1\nII\n";
+    derived.push(mk_input(Kind::Fastq, "c12/fastq-utf8-description".into(), fastq_utf8.as_bytes().to_vec(), &Side::default(), "derived"));
+    // FASTA / FASTQ shapes the line scanners special-case: blank lines, CR CR LF, lone CR before EOF
+    let fasta_odd = ">a\r\nAC\r\n\r\nGT\r\n>b x\r\n\r\nA\r\n\n>c\nAAAA\nCC\n\n\n";
+    derived.push(mk_input(Kind::Fasta, "c12/fasta-blank-lines-mixed-eol".into(), fasta_odd.as_bytes().to_vec(), &Side::default(), "derived"));
+    let fastq_odd = "@a b\r\nAC\r\n+a b\r\nII\r\n@c\r\nG\r\n+\r\nI";
+    derived.push(mk_input(Kind::Fastq, "c12/fastq-crlf-no-final-eol".into(), fastq_odd.as_bytes().to_vec(), &Side::default(), "derived"));
+    out.extend(derived);
+
+    // malformed inputs: truncations and single corrupted bytes of the smallest non-trivial items of every kind
+    let mut malformed = Vec::new();
+    for kind in Kind::ALL.iter().copied() {
+        let mut cands: Vec<&Input> = out.iter().filter(|i| i.kind == kind && i.class == "valid" && i.bytes.len() >= 120).collect();
+        cands.sort_by_key(|i| i.bytes.len());
+        for (bi, base) in cands.into_iter().take(per_kind_malformed).enumerate() {
+            let len = base.bytes.len();
+            let mut rng = Rng::new(seed, 0xC12A, fnv1a(base.name.as_bytes()) ^ bi as u64);
+            let mut cuts = BTreeSet::new();
+            cuts.insert(len / 2);
+            cuts.insert(len - 1);
+            cuts.insert((base.bounds[base.bounds.len() / 2] + 1).min(len - 1));
+            cuts.insert((base.bounds[base.bounds.len() / 2]).min(len - 1));
+            cuts.insert(rng.urange(1, len - 1));
+            for c in cuts {
+                if c == 0 {
+                    continue;
+                }
+                malformed.push(mk_input(kind, format!("{}+truncated@{c}", base.name), base.bytes[..c].to_vec(), &base.side, "malformed"));
+            }
+            for (p, mask, what) in safe_corruptions(base, &mut rng) {
+                let mut b = base.bytes.to_vec();
+                b[p] ^= mask;
+                malformed.push(mk_input(kind, format!("{}+corrupt-{what}@{p}", base.name), b, &base.side, "malformed"));
+            }
+        }
+    }
+    out.extend(malformed);
+    out
+}
+
+fn variants_of(kind: Kind) -> Vec<Variant> {
+    let mut v = kind.variants().to_vec();
+    if kind == Kind::Crai {
+        // `read_index()` next to the record-wise reading
+        v.push(Variant::Eager);
+    }
+    v
+}
+
+fn variant_name(v: Variant) -> &'static str {
+    match v {
+        Variant::Primary => "primary",
+        Variant::Eager => "eager",
+        Variant::Indexer => "indexer",
+    }
+}
+
+// ------------------------------------------------------------------------------------------------
+// schedules
+
+#[derive(Clone, Debug, PartialEq, Eq)]
+enum Mode {
+    /// the adversary is a plain `Read`; BufRead-based readers get `BufReader::with_capacity(cap, adversary)`
+    Read(usize),
+    /// the adversary itself is the `BufRead` (its `fill_buf` windows follow the size pattern)
+    Direct,
+}
+
+#[derive(Clone, Debug)]
+enum SizePat {
+    Full,
+    Fixed(usize),
+    Random(usize, u64),
+    /// cut at `boundary + d` for every structural boundary and every `d` in the list
+    Bounds(Vec<i32>),
+    /// cut at the given number of seeded random offsets
+    RandomCuts(usize, u64),
+    Script(Vec<usize>),
+}
+
+#[derive(Clone, Debug)]
+enum IntrPat {
+    None,
+    First,
+    Eof,
+    FirstAndEof,
+    /// one `Interrupted` at every cut offset of the size pattern (boundaries ± d / random cuts)
+    AtCuts,
+    /// at `n` seeded random offsets (fires where a read starts: combine with Fixed(1) or RandomCuts)
+    Random(usize, u64),
+    /// at every k-th offset (combine with Fixed(k))
+    Every(usize, usize),
+}
+
+#[derive(Clone, Debug)]
+struct Sched {
+    sizes: SizePat,
+    intr: IntrPat,
+    mode: Mode,
+}
+
+impl Sched {
+    fn size_label(&self) -> String {
+        match &self.sizes {
+            SizePat::Full => "full".into(),
+            SizePat::Fixed(k) => format!("fixed{k}"),
+            SizePat::Random(k, _) => format!("random1..{k}"),
+            SizePat::Bounds(d) => format!("bounds{d:?}"),
+            SizePat::RandomCuts(n, _) => format!("randomcuts{n}"),
+            SizePat::Script(s) => format!("script{s:?}"),
+        }
+    }
+    fn intr_label(&self) -> String {
+        match &self.intr {
+            IntrPat::None => "none".into(),
+            IntrPat::First => "first".into(),
+            IntrPat::Eof => "eof".into(),
+            IntrPat::FirstAndEof => "first+eof".into(),
+            IntrPat::AtCuts => "at-cuts".into(),
+            IntrPat::Random(n, _) => format!("random{n}"),
+            IntrPat::Every(k, n) => format!("every{k}x{n}"),
+        }
+    }
+    fn mode_label(&self) -> String {
+        match self.mode {
+            Mode::Read(c) => format!("bufreader{c}"),
+            Mode::Direct => "direct".into(),
+        }
+    }
+    fn label(&self, bufread_kind: bool) -> String {
+        if bufread_kind {
+            format!("{}|{}|{}", self.size_label(), self.intr_label(), self.mode_label())
+        } else {
+            format!("{}|{}|read", self.size_label(), self.intr_label())
+        }
+    }
+
+    fn cuts(&self, inp: &Input) -> Vec<usize> {
+        let len = inp.bytes.len();
+        let mut v: Vec<usize> = match &self.sizes {
+            SizePat::Bounds(ds) => inp
+                .bounds
+                .iter()
+                .flat_map(|&b| ds.iter().map(move |&d| b as i64 + d as i64))
+                .filter(|&o| o > 0 && (o as usize) < len)
+                .map(|o| o as usize)
+                .collect(),
+            SizePat::RandomCuts(n, s) => {
+                let mut rng = Rng::new(*s, 0xC12C, len as u64);
+                (0..*n).filter(|_| len > 1).map(|_| rng.urange(1, len - 1)).collect()
+            }
+            _ => vec![],
+        };
+        v.sort_unstable();
+        v.dedup();
+        v
+    }
+
+    fn build(&self, inp: &Input) -> ChunkedRead {
+        let len = inp.bytes.len();
+        let cuts = self.cuts(inp);
+        let sizes = match &self.sizes {
+            SizePat::Full => Sizes::Full,
+            SizePat::Fixed(k) => Sizes::Fixed(*k),
+            SizePat::Random(k, s) => Sizes::Random(*k, *s),
+            SizePat::Bounds(_) | SizePat::RandomCuts(..) => Sizes::Cuts(cuts.clone()),
+            SizePat::Script(s) => Sizes::Script(s.clone()),
+        };
+        let intr: Vec<usize> = match &self.intr {
+            IntrPat::None => vec![],
+            IntrPat::First => vec![0],
+            IntrPat::Eof => vec![len],
+            IntrPat::FirstAndEof => vec![0, len],
+            IntrPat::AtCuts => {
+                let mut v = cuts;
+                v.push(0);
+                v.push(len);
+                v
+            }
+            IntrPat::Random(n, s) => {
+                let mut rng = Rng::new(*s, 0xC121, len as u64);
+                (0..*n).map(|_| rng.urange(0, len)).collect()
+            }
+            IntrPat::Every(k, n) => (0..*n).map(|i| i * k).filter(|&o| o <= len).collect(),
+        };
+        ChunkedRead::new(inp.bytes.clone(), sizes).with_interrupts(intr)
+    }
+}
+
+const CAPS: &[usize] = &[1, 2, 3, 5, 8, 16, 64, 4096, 65536];
+
+fn schedules(ctx: &Ctx, inp: &Input, key: u64) -> Vec<Sched> {
+    let bufread = inp.kind.reader_takes_bufread();
+    let thorough = !ctx.quick();
+    let mut rng = Rng::new(ctx.seed, 0xC125, key);
+    let default = Mode::Read(corpus::DEFAULT_CAP);
+    let mut v: Vec<Sched> = Vec::new();
+    let mut add = |sizes: SizePat, intr: IntrPat, mode: Mode| v.push(Sched { sizes, intr, mode });
+
+    // --- size patterns, no interrupts
+    let fixed: &[usize] = if thorough { &[1, 2, 3, 4, 5, 7, 8, 13, 16, 17, 18, 19, 27, 28, 29, 64, 100, 4096, 65535, 65536, 65537] } else { &[1, 2, 3, 7] };
+    for &k in fixed {
+        add(SizePat::Fixed(k), IntrPat::None, default.clone());
+    }
+    let rand_k: &[usize] = if thorough { &[2, 3, 5, 8, 13, 64, 300, 1000, 5000, 70000] } else { &[5, 64, 1000, 70000] };
+    let rand_seeds = if thorough { 4 } else { 1 };
+    for &k in rand_k {
+        for _ in 0..rand_seeds {
+            add(SizePat::Random(k, rng.next_u64()), IntrPat::None, default.clone());
+        }
+    }
+    let shifts: Vec<Vec<i32>> = if thorough {
+        vec![
+            vec![0], vec![-1], vec![1], vec![-2], vec![2], vec![-3], vec![3], vec![-4], vec![4], vec![-1, 1], vec![-2, 2],
+            vec![-1, 0, 1], vec![-2, -1, 0, 1, 2], vec![0, 1], vec![-1, 0], vec![0, 4], vec![0, 18], vec![-8, 0],
+        ]
+    } else {
+        vec![vec![0], vec![-1], vec![1], vec![-2], vec![2], vec![-1, 0, 1], vec![-2, 2]]
+    };
+    for s in &shifts {
+        add(SizePat::Bounds(s.clone()), IntrPat::None, default.clone());
+    }
+    if thorough {
+        for s in [vec![1, 100000], vec![100000, 1], vec![1, 2, 3, 4, 5, 6, 7, 8, 9], vec![17, 1, 1, 65536], vec![4, 32, 1]] {
+            add(SizePat::Script(s), IntrPat::None, default.clone());
+        }
+        for _ in 0..4 {
+            add(SizePat::RandomCuts(50, rng.next_u64()), IntrPat::None, default.clone());
+        }
+    }
+
+    // --- interrupts
+    add(SizePat::Full, IntrPat::First, default.clone());
+    add(SizePat::Full, IntrPat::Eof, default.clone());
+    add(SizePat::Bounds(vec![0]), IntrPat::AtCuts, default.clone());
+    add(SizePat::Bounds(vec![1]), IntrPat::AtCuts, default.clone());
+    add(SizePat::Bounds(vec![-1]), IntrPat::AtCuts, default.clone());
+    add(SizePat::Fixed(1), IntrPat::Random(50, rng.next_u64()), default.clone());
+    add(SizePat::RandomCuts(50, rng.next_u64()), IntrPat::AtCuts, default.clone());
+    add(SizePat::Fixed(3), IntrPat::Every(3, 50), default.clone());
+    if thorough {
+        add(SizePat::Full, IntrPat::FirstAndEof, default.clone());
+        add(SizePat::Fixed(1), IntrPat::FirstAndEof, default.clone());
+        for s in [vec![-2], vec![2], vec![-1, 0, 1], vec![-2, -1, 0, 1, 2], vec![0, 4], vec![0, 18]] {
+            add(SizePat::Bounds(s), IntrPat::AtCuts, default.clone());
+        }
+        for _ in 0..5 {
+            add(SizePat::Fixed(1), IntrPat::Random(50, rng.next_u64()), default.clone());
+            add(SizePat::RandomCuts(50, rng.next_u64()), IntrPat::AtCuts, default.clone());
+        }
+        add(SizePat::Fixed(1), IntrPat::Every(1, 50), default.clone());
+        add(SizePat::Fixed(2), IntrPat::Every(2, 50), default.clone());
+        add(SizePat::Fixed(7), IntrPat::Every(7, 50), default.clone());
+        add(SizePat::Fixed(18), IntrPat::Every(18, 50), default.clone());
+    }
+
+    // --- BufRead-based readers: BufReader capacities and the adversary as the BufRead itself
+    if bufread {
+        for &c in CAPS {
+            add(SizePat::Full, IntrPat::None, Mode::Read(c));
+        }
+        add(SizePat::Random(5, rng.next_u64()), IntrPat::None, Mode::Read(3));
+        add(SizePat::Bounds(vec![0]), IntrPat::AtCuts, Mode::Read(16));
+        add(SizePat::Full, IntrPat::Every(64, 50), Mode::Read(64));
+        for k in [1usize, 2, 3, 7] {
+            add(SizePat::Fixed(k), IntrPat::None, Mode::Direct);
+        }
+        add(SizePat::Random(5, rng.next_u64()), IntrPat::None, Mode::Direct);
+        add(SizePat::Random(64, rng.next_u64()), IntrPat::None, Mode::Direct);
+        for s in [vec![0], vec![-1], vec![1], vec![-1, 0, 1]] {
+            add(SizePat::Bounds(s), IntrPat::None, Mode::Direct);
+        }
+        add(SizePat::Bounds(vec![0]), IntrPat::AtCuts, Mode::Direct);
+        add(SizePat::Fixed(1), IntrPat::Random(50, rng.next_u64()), Mode::Direct);
+        if thorough {
+            for &c in CAPS {
+                add(SizePat::Fixed(1), IntrPat::None, Mode::Read(c));
+                add(SizePat::Random(7, rng.next_u64()), IntrPat::None, Mode::Read(c));
+                add(SizePat::Bounds(vec![0]), IntrPat::None, Mode::Read(c));
+                add(SizePat::Bounds(vec![-1, 0, 1]), IntrPat::AtCuts, Mode::Read(c));
+                add(SizePat::Full, IntrPat::Every(c, 50), Mode::Read(c));
+            }
+            for &k in &[4usize, 5, 8, 13, 16, 64, 100, 4096] {
+                add(SizePat::Fixed(k), IntrPat::None, Mode::Direct);
+            }
+            for &k in &[2usize, 3, 8, 13, 300, 5000] {
+                for _ in 0..2 {
+                    add(SizePat::Random(k, rng.next_u64()), IntrPat::None, Mode::Direct);
+                }
+            }
+            for s in [vec![-2], vec![2], vec![-2, 2], vec![-1, 1], vec![-2, -1, 0, 1, 2]] {
+                add(SizePat::Bounds(s.clone()), IntrPat::None, Mode::Direct);
+                add(SizePat::Bounds(s), IntrPat::AtCuts, Mode::Direct);
+            }
+            for _ in 0..4 {
+                add(SizePat::Fixed(1), IntrPat::Random(50, rng.next_u64()), Mode::Direct);
+                add(SizePat::RandomCuts(50, rng.next_u64()), IntrPat::AtCuts, Mode::Direct);
+            }
+            add(SizePat::Full, IntrPat::First, Mode::Direct);
+            add(SizePat::Full, IntrPat::Eof, Mode::Direct);
+            add(SizePat::Script(vec![1, 100000]), IntrPat::None, Mode::Direct);
+            add(SizePat::Script(vec![100000, 1]), IntrPat::None, Mode::Direct);
+        }
+    }
+    v
+}
+
+// ------------------------------------------------------------------------------------------------
+// the tap: counts what the adversary really delivered
+
+struct Tap {
+    inner: ChunkedRead,
+    /// distinct end offsets of non-empty deliveries, in order
+    ends: Vec<usize>,
+    last_end: usize,
+}
+
+impl Tap {
+    fn new(inner: ChunkedRead) -> Self {
+        Tap { inner, ends: Vec::new(), last_end: usize::MAX }
+    }
+    fn note(&mut self, end: usize) {
+        if end != self.last_end {
+            self.ends.push(end);
+            self.last_end = end;
+        }
+    }
+}
+
+impl Read for Tap {
+    fn read(&mut self, buf: &mut [u8]) -> io::Result<usize> {
+        let n = self.inner.read(buf)?;
+        if n > 0 {
+            let e = self.inner.position();
+            self.note(e);
+        }
+        Ok(n)
+    }
+}
+
+impl BufRead for Tap {
+    fn fill_buf(&mut self) -> io::Result<&[u8]> {
+        let p = self.inner.position();
+        let n = self.inner.fill_buf()?.len();
+        if n > 0 {
+            self.note(p + n);
+        }
+        self.inner.fill_buf()
+    }
+    fn consume(&mut self, amt: usize) {
+        self.inner.consume(amt)
+    }
+}
+
+#[derive(Default, Debug)]
+struct Delivered {
+    calls: u64,
+    short: u64,
+    interrupts: u64,
+    /// deliveries that ended exactly on a structural boundary (not the end of the input)
+    aligned: u64,
+    /// deliveries that ended 1 or 2 bytes before / after a structural boundary (a length prefix, a BGZF header, a
+    /// CR LF pair or a line terminator was split across two reads)
+    straddling: u64,
+    /// deliveries that ended anywhere else inside the input
+    inside: u64,
+}
+
+fn classify_ends(ends: &[usize], bounds: &[usize], len: usize, d: &mut Delivered) {
+    for &e in ends {
+        if e == 0 || e >= len {
+            continue;
+        }
+        let i = bounds.partition_point(|&b| b < e);
+        // bounds[i] >= e, bounds[i-1] < e
+        let next = bounds.get(i).copied();
+        let prev = if i > 0 { Some(bounds[i - 1]) } else { None };
+        if next == Some(e) {
+            d.aligned += 1;
+        } else if next.map(|b| b - e <= 2).unwrap_or(false) || prev.map(|b| e - b <= 2).unwrap_or(false) {
+            d.straddling += 1;
+        } else {
+            d.inside += 1;
+        }
+    }
+}
+
+type Outcome = Result<Vec<String>, guard::PanicInfo>;
+
+fn run_plain(inp: &Input, variant: Variant, deep: bool) -> Outcome {
+    guard::catch(|| corpus::transcript_read_variant(inp.kind, variant, &inp.bytes[..], &inp.side, deep, corpus::DEFAULT_CAP))
+}
+
+fn run_sched(inp: &Input, variant: Variant, deep: bool, s: &Sched, d: Option<&mut Delivered>) -> Outcome {
+    let mut tap = Tap::new(s.build(inp));
+    let r = guard::catch(|| match s.mode {
+        Mode::Read(cap) => corpus::transcript_read_variant(inp.kind, variant, &mut tap, &inp.side, deep, cap),
+        Mode::Direct => corpus::transcript_bufread_variant(inp.kind, variant, &mut tap, &inp.side, deep),
+    });
+    if let Some(d) = d {
+        d.calls += tap.inner.calls as u64;
+        d.short += tap.inner.short_deliveries as u64;
+        d.interrupts += tap.inner.interrupts_delivered as u64;
+        classify_ends(&tap.ends, &inp.bounds, inp.bytes.len(), d);
+    }
+    r
+}
+
+// ------------------------------------------------------------------------------------------------
+// diagnosis
+
+fn element_class(e: &str) -> String {
+    if e == "END" {
+        return "end".into();
+    }
+    if let Some(k) = e.strip_prefix("ERR:") {
+        return format!("error({k})");
+    }
+    if e.starts_with("A-ERR:") {
+        return "deep-error".into();
+    }
+    match e.split(':').next().unwrap_or("") {
+        "H" => "header",
+        "R" => "record",
+        "V" => "vpos",
+        "D" => "bytes",
+        "C" => "container",
+        "I" => "index",
+        "A" => "deep",
+        _ => "other",
+    }
+    .into()
+}
+
+fn clip(s: &str) -> String {
+    let mut t: String = s.chars().take(400).collect();
+    if t.len() < s.len() {
+        t.push('…');
+    }
+    t
+}
+
+/// `None` if equal; otherwise (diff class, description).
+fn diff(reference: &Outcome, got: &Outcome) -> Option<(String, String)> {
+    match (reference, got) {
+        (Ok(a), Ok(b)) => {
+            if a == b {
+                return None;
+            }
+            let i = a.iter().zip(b).position(|(x, y)| x != y).unwrap_or(a.len().min(b.len()));
+            let (x, y) = (a.get(i), b.get(i));
+            let (cx, cy) = (x.map(|e| element_class(e)).unwrap_or("nothing".into()), y.map(|e| element_class(e)).unwrap_or("nothing".into()));
+            let class = if cy == "error(Interrupted)" {
+                // the call site class: header reader vs everything after it
+                format!("{}-became-error(Interrupted)", if cx == "header" { "header" } else { "body" })
+            } else if cx == cy {
+                format!("{cx}-differs")
+            } else {
+                format!("{cx}-became-{cy}")
+            };
+            let msg = corpus::last_error_message().map(|m| format!(" (last error text: {m})")).unwrap_or_default();
+            Some((
+                class,
+                format!(
+                    "first difference at element #{i} of {} (plain slice) / {} (adversary): plain slice gives «{}», adversary delivery gives «{}»{msg}",
+                    a.len(),
+                    b.len(),
+                    x.map(|e| clip(e)).unwrap_or("<nothing>".into()),
+                    y.map(|e| clip(e)).unwrap_or("<nothing>".into())
+                ),
+            ))
+        }
+        (Ok(a), Err(p)) => Some((
+            format!("panic:{}", p.sig),
+            format!("plain slice gives {} elements ending with «{}», adversary delivery panics: {} at {}:{}", a.len(), a.last().map(|e| clip(e)).unwrap_or_default(), p.message, p.file, p.line),
+        )),
+        (Err(p), Ok(b)) => Some((
+            "plain-slice-panics-adversary-does-not".into(),
+            format!("plain slice run panics ({} at {}:{}), adversary delivery gives {} elements ending with «{}»", p.message, p.file, p.line, b.len(), b.last().map(|e| clip(e)).unwrap_or_default()),
+        )),
+        (Err(p), Err(q)) => {
+            if p.sig == q.sig {
+                None
+            } else {
+                Some(("different-panics".into(), format!("plain slice panics with {}, adversary delivery with {}", p.sig, q.sig)))
+            }
+        }
+    }
+}
+
+// ------------------------------------------------------------------------------------------------
+// cases
+
+#[derive(Clone, Debug)]
+struct Case {
+    input: usize,
+    variant: Variant,
+    /// schedule index range of this (input, variant)
+    from: usize,
+    to: usize,
+}
+
+struct World {
+    inputs: Vec<Input>,
+    cases: Vec<Case>,
+}
+
+fn sched_key(inp: &Input, variant: Variant) -> u64 {
+    fnv1a(format!("{}|{}", inp.name, variant_name(variant)).as_bytes())
+}
+
+fn gen_world(ctx: &Ctx) -> World {
+    let scale = ctx.budget("scale", 1, 2) as u8;
+    let per_kind_malformed = ctx.budget("malformed", 2, 3) as usize;
+    let inputs = build_inputs(ctx.seed, scale, per_kind_malformed);
+    let only_kind = ctx.param("kind").and_then(Kind::from_name);
+    let only_input = ctx.param("input");
+    // bytes * schedules per case
+    let chunk_budget = ctx.budget("chunk", 6_000_000, 6_000_000) as usize;
+    let mut cases = Vec::new();
+    for (ii, inp) in inputs.iter().enumerate() {
+        if only_kind.map(|k| k != inp.kind).unwrap_or(false) {
+            continue;
+        }
+        if only_input.map(|n| !inp.name.contains(n)).unwrap_or(false) {
+            continue;
+        }
+        for variant in variants_of(inp.kind) {
+            let n = schedules(ctx, inp, sched_key(inp, variant)).len();
+            let per = (chunk_budget / inp.bytes.len().max(1)).clamp(1, n.max(1));
+            let mut from = 0;
+            while from < n {
+                let to = (from + per).min(n);
+                cases.push(Case { input: ii, variant, from, to });
+                from = to;
+            }
+        }
+    }
+    World { inputs, cases }
+}
+
+fn case_json(w: &World, c: &Case) -> serde_json::Value {
+    let inp = &w.inputs[c.input];
+    json!({"input": inp.name, "kind": inp.kind.name(), "class": inp.class, "len": inp.bytes.len(),
+           "variant": variant_name(c.variant), "schedules": [c.from, c.to]})
+}
+
+fn cause_of(inp: &Input, variant: Variant, deep: bool, s: &Sched, reference: &Outcome) -> &'static str {
+    // 1. without the interrupts
+    if !matches!(s.intr, IntrPat::None) {
+        let s2 = Sched { sizes: s.sizes.clone(), intr: IntrPat::None, mode: s.mode.clone() };
+        if diff(reference, &run_sched(inp, variant, deep, &s2, None)).is_none() {
+            return "interrupted";
+        }
+    }
+    // 2. a BufReader of that capacity over a source that never delivers short
+    if let Mode::Read(cap) = s.mode {
+        if inp.kind.reader_takes_bufread() && cap != corpus::DEFAULT_CAP {
+            let s2 = Sched { sizes: SizePat::Full, intr: IntrPat::None, mode: s.mode.clone() };
+            if diff(reference, &run_sched(inp, variant, deep, &s2, None)).is_some() {
+                return "capacity";
+            }
+        }
+    }
+    "short-read"
+}
+
+fn run_case(ctx: &Ctx, w: &World, c: &Case) -> CaseOut {
+    let inp = &w.inputs[c.input];
+    let kind = inp.kind.name();
+    let vname = variant_name(c.variant);
+    let bufread = inp.kind.reader_takes_bufread();
+    // the deep accessor walk is only meaningful (and only known to terminate) on valid input
+    let deep = inp.class != "malformed" && ctx.param("deep") != Some("0");
+    let mut o = CaseOut::new();
+    o.evaluations = 0;
+    let reference = run_plain(inp, c.variant, deep);
+    if c.from == 0 {
+        o.count(&format!("inputs[{kind}:{vname}]"), 1);
+        o.count(&format!("inputs_{}[{kind}]", inp.class), 1);
+        match &reference {
+            Ok(t) => {
+                o.count(&format!("reference_elements[{kind}:{vname}]"), t.len() as u64);
+                let last = t.last().map(|e| element_class(e)).unwrap_or_default();
+                o.count(&format!("reference_outcome[{kind}:{}]", if last == "end" { "end" } else { "error" }), 1);
+            }
+            Err(_) => o.count(&format!("reference_outcome[{kind}:panic]"), 1),
+        }
+    }
+    if let Err(p) = &reference {
+        // not C12's business (C15): nothing to compare against
+        o.count("plain_slice_run_panicked_inputs_skipped", 1);
+        if inp.class != "malformed" {
+            o.inconclusive.push(format!("plain-slice run of {} ({vname}) panics: {} — input skipped", inp.name, p.sig));
+        }
+        return o;
+    }
+    let scheds = schedules(ctx, inp, sched_key(inp, c.variant));
+    let mut d = Delivered::default();
+    let mut reported = BTreeSet::new();
+    for s in &scheds[c.from..c.to] {
+        let got = run_sched(inp, c.variant, deep, s, Some(&mut d));
+        o.evaluations += 1;
+        o.fps.push(fnv1a(format!("{kind}|{vname}|{}", s.label(bufread)).as_bytes()));
+        if let Some((class, desc)) = diff(&reference, &got) {
+            let cause = cause_of(inp, c.variant, deep, s, &reference);
+            let sig = format!("{kind}:{vname}:{cause}:{class}");
+            if reported.insert(sig.clone()) {
+                o.violation_with(
+                    sig,
+                    format!("{} [{}] read through {vname} API under delivery {}: {desc}", inp.name, inp.class, s.label(bufread)),
+                    json!({"input": inp.name, "input_len": inp.bytes.len(), "variant": vname, "schedule": format!("{s:?}"),
+                           "input_head_hex": vcore::report::hex(&inp.bytes[..inp.bytes.len().min(96)])}),
+                );
+            }
+            o.count(&format!("differing_deliveries[{kind}]"), 1);
+        }
+    }
+    o.count(&format!("deliveries[{kind}:{vname}]"), (c.to - c.from) as u64);
+    o.count(&format!("source_calls[{kind}]"), d.calls);
+    o.count(&format!("short_deliveries[{kind}]"), d.short);
+    o.count(&format!("interrupts_delivered[{kind}]"), d.interrupts);
+    o.count(&format!("deliveries_ending_on_a_boundary[{kind}]"), d.aligned);
+    o.count(&format!("deliveries_straddling_a_boundary_by_1_or_2_bytes[{kind}]"), d.straddling);
+    o.count(&format!("deliveries_ending_elsewhere_inside[{kind}]"), d.inside);
+    o
+}
 
 fn main() {
-    eprintln!("c12: not implemented");
-    std::process::exit(2);
+    let ctx = Ctx::from_args();
+    let ctx = vcore::cases::replay_request(&ctx).map(|r| r.1).unwrap_or(ctx);
+    let mut rep = Report::new(
+        "case = (input, reading API, batch of delivery schedules); input = every corpus item of every kind (scale 1 quick / 2 thorough) \
+         + CRLF / no-final-EOL / trailing-blank-line / multi-byte UTF-8 derivatives of the text kinds + truncated and single-corrupted-byte \
+         derivatives of the smallest items of every kind; schedule = (size pattern, Interrupted pattern, BufReader capacity | adversary used \
+         directly as BufRead); evaluations = adversary deliveries compared with the plain-slice transcript; distinct = distinct \
+         (kind, reading API, size pattern, interrupt pattern, capacity/mode) tuples; non-trivial = all",
+    );
+    rep.assumptions.push("oracle = the same noodles reader driven by the same corpus transcript driver on the plain slice (differential in the delivery schedule only)".into());
+    rep.assumptions.push("Interrupted is injected at most once per source offset (finite); std::io::BufReader passes it through fill_buf, read_until / read_exact / read_to_end retry it".into());
+    rep.assumptions.push("the Bgzf driver retries Interrupted itself (std::io::Read contract of bgzf::io::Reader::read); every other driver treats any error as final".into());
+    rep.assumptions.push("inputs whose plain-slice run panics are skipped (C15)".into());
+    let w = gen_world(&ctx);
+    let f = |i: u64| -> CaseOut { run_case(&ctx, &w, &w.cases[i as usize]) };
+    run_cases(&ctx, &mut rep, w.cases.len() as u64, 240.0, &f, &|i| case_json(&w, &w.cases[i as usize]));
+    if ctx.replay.is_none() && ctx.param("kind").is_none() && ctx.param("input").is_none() {
+        // every reader kind must have been driven, must have seen short deliveries, boundary-straddling deliveries
+        // and delivered interrupts
+        let counters = rep.counters.clone();
+        for kind in Kind::ALL {
+            let k = kind.name();
+            let get = |name: &str| counters.get(&format!("{name}[{k}]")).copied().unwrap_or(0);
+            let inputs: u64 = variants_of(*kind).iter().map(|v| counters.get(&format!("inputs[{k}:{}]", variant_name(*v))).copied().unwrap_or(0)).min().unwrap_or(0);
+            rep.floor(&format!("inputs[{k}] (every reading API)"), inputs, 3);
+            rep.floor(&format!("short_deliveries[{k}]"), get("short_deliveries"), 1000);
+            rep.floor(&format!("interrupts_delivered[{k}]"), get("interrupts_delivered"), 50);
+            rep.floor(&format!("deliveries_straddling_a_boundary_by_1_or_2_bytes[{k}]"), get("deliveries_straddling_a_boundary_by_1_or_2_bytes"), 20);
+            rep.floor(&format!("reference_outcome[{k}:end]"), counters.get(&format!("reference_outcome[{k}:end]")).copied().unwrap_or(0), 1);
+            rep.floor(&format!("reference_outcome[{k}:error]"), counters.get(&format!("reference_outcome[{k}:error]")).copied().unwrap_or(0), 1);
+        }
+    }
+    rep.finish(&ctx);
 }
